@@ -200,7 +200,15 @@ def make_elements(spec: NetSpec, names=None, override=None):
     return obj
 
 
-def build(spec: NetSpec, names=None, order=None, override=None, netname="net") -> Built:
+def touch_lookups(net):
+    """Reads every lookup the network offers (so that each memoised entry exists)."""
+    _ = (net.nodes_by_name, net.links_by_name, net.nodes_by_link, net.origins, net.origins_by_name, net.origins_by_node,
+         net.destinations, net.destinations_by_name, net.destinations_by_node, list(net.links), list(net.in_links))
+    for n in list(net.nodes):
+        _ = (list(net.in_links(n)), list(net.out_links(n)))
+
+
+def build(spec: NetSpec, names=None, order=None, override=None, netname="net", touch=False) -> Built:
     """Issues the real construction calls.  `order` is a list of calls:
     ('nodes',) add_nodes(all); ('node', i); ('link', i); ('links', (i, j, ..)) bulk;
     ('origin', node); ('dest', node); ('path', (link indices forming a chain), with_origin, with_dest)."""
@@ -232,6 +240,8 @@ def build(spec: NetSpec, names=None, order=None, override=None, netname="net") -
                          destination=obj[f"D{last}"] if call[3] else None)
         else:
             raise ValueError(call)
+        if touch:
+            touch_lookups(net)
     return Built(net, spec, obj)
 
 
